@@ -65,6 +65,13 @@ def _shard(args):
     warnings.filterwarnings("ignore")
     mod = importlib.import_module("pbt.props.%s" % prop.lower())
     ctx = core.Ctx(prop, tier, seed, shard, nshards, mod)
+    import contextlib
+    with contextlib.redirect_stdout(open(os.devnull, "w")):   # the library prints progress / warnings
+        return _shard_body(ctx, mod, prop, tier, shard)
+
+
+def _shard_body(ctx, mod, prop, tier, shard):
+    from pbt import core
     # watchdog: a hang is a harness-level "inconclusive" (exit 2), never a violation
     import signal
 
@@ -114,7 +121,9 @@ def main():
         doc = json.load(open(a.replay))
         ctx = core.Ctx(prop, a.tier, seed, module=mod)
         try:
-            hit = ctx.check(doc["case"])
+            import contextlib
+            with contextlib.redirect_stdout(open(os.devnull, "w")):
+                hit = ctx.check(doc["case"])
         except core.HarnessError as e:
             print("HARNESS-ERROR property=%s %s" % (prop, e))
             return 2
@@ -142,7 +151,9 @@ def main():
             if fn.endswith(".json"):
                 doc = json.load(open(os.path.join(rdir, fn)))
                 try:
-                    total.check(doc["case"])
+                    import contextlib
+                    with contextlib.redirect_stdout(open(os.devnull, "w")):
+                        total.check(doc["case"])
                     total.evaluations += 1
                     nreg += 1
                 except core.HarnessError as e:
